@@ -2,8 +2,11 @@ package props
 
 import (
 	"fmt"
+	"os"
+	"path/filepath"
 
 	"github.com/jrhy/mast"
+	"github.com/jrhy/mast/persist/file"
 
 	"verif/internal/fw"
 	"verif/internal/kinds"
@@ -76,7 +79,118 @@ func inRange(kk *kinds.KeyKind, r keyRange, k interface{}) bool {
 	return true
 }
 
+// c13File runs batches against the real file backend and looks at the directory:
+// every file a MakeRoot leaves behind must be a node reachable from the root it
+// returned (or have been there before), and an unmodified tree must not add files.
+func c13File(c *fw.C) {
+	r := c.R
+	cfg := pickCfg(r)
+	cfg.Cache = []string{"none", "big"}[r.Intn(2)]
+	scratch := os.Getenv("VERIF_SCRATCH")
+	if scratch == "" {
+		scratch = os.TempDir()
+	}
+	dir, err := os.MkdirTemp(scratch, "c13-")
+	if err != nil {
+		return
+	}
+	defer os.RemoveAll(dir)
+	e := kinds.NewEnv(cfg)
+	fp := file.NewPersistForPath(dir)
+	e.Persist = fp
+	get := func(n string) ([]byte, bool) {
+		b, err := os.ReadFile(filepath.Join(dir, n))
+		return b, err == nil
+	}
+	listing := func() map[string]bool {
+		out := map[string]bool{}
+		ents, _ := os.ReadDir(dir)
+		for _, en := range ents {
+			out[en.Name()] = true
+		}
+		return out
+	}
+	pool := cfg.KK.Pool(r, cfg.BF, 80)
+	s, err := newSide(e)
+	if err != nil {
+		return
+	}
+	if err = s.fill(e, r, pool, r.Range(1, 60)); err != nil {
+		return
+	}
+	c.Desc("file backend cfg{%s}", cfg)
+	for b := 0; b < 6 && !c.Violated(); b++ {
+		before := listing()
+		root, err := s.T.MakeRoot(e.Ctx)
+		if err != nil {
+			c.Obs("makeroot_failed", 1)
+			return
+		}
+		after := listing()
+		reach := map[string]bool{}
+		if root.Link != nil {
+			if err := ref.Reach(get, cfg.Format, *root.Link, reach); err != nil {
+				c.Violation("C13.no_garbage", map[string]string{"backend": "file"}, "after MakeRoot the returned root is not completely in the directory: %v", err)
+				return
+			}
+		}
+		c.Obs("file_backend_persists", 1)
+		for n := range after {
+			if !before[n] && !reach[n] {
+				c.Violation("C13.no_garbage", map[string]string{"backend": "file"}, "MakeRoot left the file %q in the node directory, which is not a node reachable from the returned root %s | cfg{%s}", n, rootStr(root), cfg)
+				return
+			}
+		}
+		// persist again with nothing modified: no new file at all
+		root2, err := s.T.MakeRoot(e.Ctx)
+		if err == nil {
+			again := listing()
+			for n := range again {
+				if !after[n] {
+					c.Violation("C13.unmodified_writes_nothing", map[string]string{"backend": "file"}, "a second MakeRoot with nothing modified created the file %q | cfg{%s}", n, cfg)
+					return
+				}
+			}
+			if !sameRoot(root, root2) {
+				c.Violation("C13.unmodified_writes_nothing", map[string]string{"backend": "file"}, "a second MakeRoot with nothing modified returned another root")
+				return
+			}
+		}
+		if r.Chance(1, 3) { // carry on from a fresh load of what was just persisted
+			if t, err := e.Load(root); err == nil {
+				s.T = t
+			}
+		}
+		// next batch: includes delete+reinsert and update+revert, which re-create existing nodes
+		for i := r.Range(1, 4); i > 0 && s.M.Len() > 0; i-- {
+			j := r.Intn(s.M.Len())
+			k, v := s.M.Keys[j], s.M.Vals[j]
+			switch r.Intn(3) {
+			case 0:
+				if s.del(e, k) != nil || s.ins(e, k, v) != nil {
+					return
+				}
+			case 1:
+				if cfg.VK.Single {
+					continue
+				}
+				if s.ins(e, k, diffValOf(cfg.VK, r, v)) != nil || (r.Bool() && s.ins(e, k, v) != nil) {
+					return
+				}
+			default:
+				if s.ins(e, pool[r.Intn(len(pool))], cfg.VK.Gen(r)) != nil {
+					return
+				}
+			}
+		}
+	}
+}
+
 func runC13(c *fw.C) {
+	if c.Idx%10 == 9 {
+		c13File(c)
+		return
+	}
 	r := c.R
 	cfg := pickCfg(r)
 	n := r.Range(1, 150)
